@@ -475,6 +475,17 @@ func (c *collection) create(
 		return NewErrDocumentDeleted(primaryKey.DocID)
 	}
 
+	// c.exists answers "does not exist" for a document the requester may not read. A create must
+	// never be applied on top of such a document (docIDs are content derived, so re-submitting the
+	// creation content of a private document would otherwise overwrite it).
+	hasPrimaryKey, err := datastore.CtxMustGetTxn(ctx).Datastore().Has(ctx, primaryKey.Bytes())
+	if err != nil {
+		return err
+	}
+	if hasPrimaryKey {
+		return NewErrDocumentAlreadyExists(primaryKey.DocID)
+	}
+
 	// write value object marker if we have an empty doc
 	if len(doc.Values()) == 0 {
 		txn := datastore.CtxMustGetTxn(ctx)
